@@ -75,7 +75,8 @@ void pres_free(pres_t *p);
 #define DATA_FF 2
 #define DATA_HIGH 3       /* all bytes >= 0x80 */
 #define DATA_BOUNDARY 4   /* zeros with a non-zero byte at each fragment boundary */
-#define DATA_KINDS 5
+#define DATA_EDGE 5       /* every fragment starts with runs of edge-value words: ffff.., 0000, 0001, fffe, 8000, 00ff, ff00 */
+#define DATA_KINDS 6
 void data_fill(uint8_t *buf, uint64_t len, int kind, rng_t *r, int k, uint64_t payload);
 const char *data_kind_name(int kind);
 
